@@ -24,6 +24,15 @@ def main(argv=None):
         print(f"no check for {pid}: {e}", file=sys.stderr)
         return 2
     ctx = Ctx(pid, a.tier)
+
+    def watchdog(signum, frame):
+        # code under test that never returns must not hang the check for ever: no verdict (exit 2)
+        print(f"MACHINERY-ERROR {pid}: watchdog: the check did not finish within its wall-clock limit", file=sys.stderr)
+        os._exit(2)
+
+    import signal
+    signal.signal(signal.SIGALRM, watchdog)
+    signal.alarm(int(os.environ.get("GV_WATCHDOG_S", 2400 if a.tier == "quick" else 8 * 3600)))
     try:
         env.use_repo()
         if a.replay:
